@@ -16,9 +16,10 @@ git stash -q
 echo "-- demo on the unchanged tree (expect exit 0):"
 PYTHONPATH=$WT/src timeout 600 /venv/bin/python -B $SW/demo.py > /tmp/seedwork/$ID/demo_unchanged.out 2>&1; echo "exit=$?"; tail -3 /tmp/seedwork/$ID/demo_unchanged.out
 git stash pop -q
-echo "-- repository test suite with the change applied:"
-PYTHONPATH=$WT/src /venv/bin/python -m pytest -q -p no:cacheprovider --timeout=900 --continue-on-collection-errors 2>&1 | grep -E "^FAILED|passed|failed" | tail -8
 echo "-- our checks (quick tier) on the change:"
 cd /verif
 for p in $PROPS; do /venv/bin/python -B -m vf.canary $OUT/patch.diff $p | cut -c1-260 | head -6; done
+cd $WT
+echo "-- repository test suite with the change applied:"
+PYTHONPATH=$WT/src /venv/bin/python -m pytest -q -p no:cacheprovider --timeout=900 --continue-on-collection-errors 2>&1 | grep -E "^FAILED|passed|failed" | tail -8
 } 2>&1 | tee $OUT/verification.txt
